@@ -215,6 +215,8 @@ class Sym:
     def proj1(self, base, el):
         h = base[0]
         if el.startswith('@'):
+            if h == 'agg' and base[1].rsplit('::', 1)[-1] == el[1:]:
+                return base          # (Enum::V { .. } as V) - e.g. the result of an inlined helper returning its own enum
             return ('variant', base, el[1:])
         if h == 'agg':
             for (n, e) in base[2]:
@@ -524,6 +526,8 @@ def simplify_proj(e):
     if not isinstance(e, tuple):
         return e
     e = map_children(e, simplify_proj)
+    if e[0] == 'variant' and e[1][0] == 'agg' and e[1][1].rsplit('::', 1)[-1] == e[2]:
+        return e[1]
     if e[0] == 'field':
         b = e[1]
         if b[0] == 'agg':
